@@ -55,7 +55,9 @@ func c24ProtectReplaced(r *core.Run) {
 			return false
 		}
 		fr, isF := core.AsField(st.Addr)
-		return isF && fr.Struct == kadT && fr.Name == "protectPeers" && st.Val == ssa.Value(fn.Params[1])
+		// a replacement: the stored list is not built from the list it replaces (the
+		// parameter itself, a copy of it, a filtered copy … all qualify)
+		return isF && fr.Struct == kadT && fr.Name == "protectPeers" && !fromOldProtected(st.Val, 0)
 	})
 	pos := fn.Pos()
 	if bad != nil {
@@ -185,11 +187,80 @@ func c33HandshakeAtomic(r *core.Run, la *core.LockAnalysis, mu string) {
 	r.Saw(core.FuncName(fn))
 	r.Eval(core.EdgeCount(fn))
 	n := 0
-	for _, c := range core.Calls(fn, "(pkg/settlement/traffic/cheque.ChequeStore).LastSendCheque") {
+	// Handshake and the helpers of the package it reaches through static calls (a
+	// maintainer may move the adoption into a helper; the entry lockset of a helper is
+	// the intersection over its call sites)
+	seen := map[*ssa.Function]bool{}
+	var reach []*ssa.Function
+	var walk func(f *ssa.Function, depth int)
+	walk = func(f *ssa.Function, depth int) {
+		if f == nil || seen[f] || depth > 3 || f.Pkg != fn.Pkg || len(f.Blocks) == 0 {
+			return
+		}
+		seen[f] = true
+		for _, g := range core.WithClosures(f) {
+			if g != f {
+				seen[g] = true
+			}
+			reach = append(reach, g)
+			for _, b := range g.Blocks {
+				for _, in := range b.Instrs {
+					if c, ok := in.(ssa.CallInstruction); ok {
+						if _, isGo := in.(*ssa.Go); !isGo {
+							walk(c.Common().StaticCallee(), depth+1)
+						}
+					}
+				}
+			}
+		}
+	}
+	walk(fn, 0)
+	var reads []ssa.Instruction
+	for _, g := range reach {
+		reads = append(reads, core.Calls(g, "(pkg/settlement/traffic/cheque.ChequeStore).LastSendCheque")...)
+	}
+	for _, c := range reads {
 		n++
 		h := la.HeldAt(c)
-		r.Check(rule, core.Key(rule, fn, "last recorded cheque read under the peer's mutex"), c.Pos(), h != nil && h.Holds(mu, true),
+		r.Check(rule, core.Key(rule, c.Parent(), "last recorded cheque read under the peer's mutex"), c.Pos(), h != nil && h.Holds(mu, true),
 			"Handshake reads the last recorded cheque and records the adopted one in one critical section of the peer's Traffic mutex", "Handshake reads LastSendCheque without the Traffic mutex (held: "+h.String()+") and takes it only to record: a cheque Pay issued in between is overwritten by the older presented one, the next Pay pays that difference again")
 	}
 	r.Floor(rule, "reads of the last recorded cheque in Handshake", n, 1)
+}
+
+// fromOldProtected: v is computed from a load of Kad.protectPeers (also through append).
+func fromOldProtected(v ssa.Value, depth int) bool {
+	if v == nil || depth > 6 {
+		return false
+	}
+	isOld := func(x ssa.Value) bool {
+		u, ok := x.(*ssa.UnOp)
+		if !ok {
+			return false
+		}
+		fr, isF := core.AsField(u.X)
+		return isF && fr.Struct == kadT && fr.Name == "protectPeers"
+	}
+	if core.DerivesFrom(v, isOld, nil) {
+		return true
+	}
+	switch x := core.Strip(v).(type) {
+	case *ssa.Call:
+		if b, ok := x.Call.Value.(*ssa.Builtin); ok && b.Name() == "append" {
+			for _, a := range x.Call.Args {
+				if fromOldProtected(a, depth+1) {
+					return true
+				}
+			}
+		}
+	case *ssa.Phi:
+		for _, e := range x.Edges {
+			if fromOldProtected(e, depth+1) {
+				return true
+			}
+		}
+	case *ssa.Slice:
+		return fromOldProtected(x.X, depth+1)
+	}
+	return false
 }
